@@ -223,14 +223,31 @@ class GenHooks(Hooks):
             return ("store", m.group(2), vtext)
         return None
 
+    def loop_label(self, st, it_text, it):
+        # inner loops are labelled with what they walk as the interpreter sees it (locals read through)
+        if it.loop_depth >= 2:
+            return f"each {ast.unparse(st.target)} in {strip_cast(it_text)}"
+        return None
 
-def flat(events):
+
+def flat(events, by_source: bool = False):
     """Strip loop contexts to (depth-labels, event) and drop bookkeeping."""
     out = []
     for e in events:
         ctx = ()
         while e[0] == "each":
-            ctx = ctx + tuple(c.split(" in ")[0] for c in e[1]) if not ctx else ctx
+            if not ctx:
+                # an inner loop is named by WHAT it walks, not by its loop variable (`each@result.report.bad_licenses`): the name
+                # of the variable is the author's choice
+                labels = []
+                for depth, c in enumerate(e[1]):
+                    var, _, src = c.partition(" in ")
+                    labels.append(var if depth == 0 or not src or not by_source else f"each@{src}")
+                    if by_source and depth and src and e[2][0] != "each":
+                        v = var[len("each "):] if var.startswith("each ") else var
+                        inner = e[2]
+                        e = (e[0], e[1], tuple(f"@{src}" if x == v else x for x in inner))
+                ctx = tuple(labels)
             e = e[2]
         if e[0] in ("element-end",):
             out.append((ctx, e))
@@ -268,7 +285,7 @@ def rule_propagation(ck: Check, repo: Repo, qual: str, rid: str, full: bool) -> 
         extra_atoms = {k: v for k, v in d.items() if k.split("::")[-1] not in spec}
         if extra_atoms:
             short.update({k.split("::")[-1]: v for k, v in extra_atoms.items()})
-        ev = flat(leaf.events)
+        ev = flat(leaf.events, by_source=True)
         r.instance("path:" + show_valuation(short), {"valuation": show_valuation(short),
                                                      "events": [repr(e) for _, e in ev][:12]})
         got = {(c, e) for c, e in ev if e[0] in ("add", "map-add")}
@@ -278,11 +295,11 @@ def rule_propagation(ck: Check, repo: Repo, qual: str, rid: str, full: bool) -> 
             exp.add((res, ("add", "read_errors", "Path(result.path)")))
         else:
             exp.add((res, ("add", "file_reports", "result.report")))
-            exp.add((res + ("each missing_license",),
-                     ("map-add", "missing_licenses", "missing_license", "result.report.path")))
+            exp.add((res + ("each@result.report.missing_licenses",),
+                     ("map-add", "missing_licenses", "@result.report.missing_licenses", "result.report.path")))
             if full:
-                exp.add((res + ("each bad_license",),
-                         ("map-add", "bad_licenses", "bad_license", "result.report.path")))
+                exp.add((res + ("each@result.report.bad_licenses",),
+                         ("map-add", "bad_licenses", "@result.report.bad_licenses", "result.report.path")))
         if full:
             lic = ("each (name, path)",)
             if short.get("in_map") is False:
